@@ -419,10 +419,15 @@ def cache_session(args):
                     keep = [l for l in lines if victim is None or ('transcript_id "%s"' % victim) not in l]
                     with open(paths["gtf"], "w") as f:
                         f.writelines(keep)
-                    # annotation files are not simulated paths: give the file a real, older modification time (as cp -p does)
+                    import gzip as _gz
+                    with open(paths["gtf_gz"], "wb") as raw:
+                        with _gz.GzipFile(fileobj=raw, mode="wb", mtime=0) as f:
+                            f.write("".join(keep).encode())
+                    # annotation files are not simulated paths: give the files a real, older modification time (as cp -p does)
                     st = os.stat(paths["gtf"])
                     old = st.st_mtime - 100000.0 - si
-                    os.utime(paths["gtf"], (old, old))
+                    for pth in (paths["gtf"], paths["gtf_gz"]):
+                        os.utime(pth, (old, old))
                 elif op == "touch_gtf":
                     st = os.stat(paths["gtf"])
                     os.utime(paths["gtf"], (st.st_mtime + 1000.0 + si, st.st_mtime + 1000.0 + si))
